@@ -11,7 +11,7 @@ package reftable
 
 //@ func getVarInt
 //@   results val, n
-//@   props C18
+//@   props C18 C19
 //@   pure
 //@   nopanic
 //@   ensures n == -1 || (1 <= n && n <= len(buf))
@@ -19,38 +19,38 @@ package reftable
 //@   loop 1 decreases len(buf) - ptr
 
 //@ func decodeKey
-//@   props C18
+//@   props C18 C19
 //@   nopanic
 //@   modifies nothing
 //@   ensures ok ==> 0 < n && n <= len(buf)
 //@   ensures !ok ==> n == 0
 
 //@ func decodeString
-//@   props C18
+//@   props C18 C19
 //@   nopanic
 //@   modifies nothing
 //@   ensures ok ==> 0 < n && n <= len(buf)
 
 //@ func decodeRestartKey
-//@   props C18
+//@   props C18 C19
 //@   nopanic
 //@   modifies nothing
 
 //@ func (*RefRecord).decode
-//@   props C18
+//@   props C18 C19
 //@   requires hashSize == 20 || hashSize == 32
 //@   nopanic
 //@   modifies r.ALLFIELDS
 //@   ensures ok ==> 0 < n && n <= len(buf)
 
 //@ func (*indexRecord).decode
-//@   props C18
+//@   props C18 C19
 //@   nopanic
 //@   modifies r.ALLFIELDS
 //@   ensures ok ==> 0 < n && n <= len(buf)
 
 //@ func (*objRecord).decode
-//@   props C18
+//@   props C18 C19
 //@   nopanic
 //@   modifies r.ALLFIELDS
 //@   ensures ok ==> 0 <= n && n <= len(buf)
@@ -58,12 +58,12 @@ package reftable
 //@   loop 1 decreases count
 
 //@ func (*LogRecord).decodeKey
-//@   props C18
+//@   props C18 C19
 //@   nopanic
 //@   modifies l.RefName, l.UpdateIndex
 
 //@ func (*LogRecord).decode
-//@   props C18
+//@   props C18 C19
 //@   requires hashSize == 20 || hashSize == 32
 //@   nopanic
 //@   modifies l.ALLFIELDS
@@ -78,12 +78,12 @@ package reftable
 //@ spec wfBI(bi *blockIter) bool = bi != nil && wfBR(bi.br)
 
 //@ func isBlockType
-//@   props C18
+//@   props C18 C19
 //@   pure
 //@   ensures result == (typ == 'g' || typ == 'i' || typ == 'r' || typ == 'o')
 
 //@ func getU24
-//@   props C18 C14
+//@   props C18 C14 C19
 //@   requires len(in) >= 3
 //@   pure
 //@   nopanic
@@ -91,7 +91,7 @@ package reftable
 //@   ensures result < 16777216
 
 //@ func newRecord
-//@   props C18
+//@   props C18 C19
 //@   requires key == ""
 //@   nopanic
 //@   ensures (typ == 'g' || typ == 'i' || typ == 'r' || typ == 'o') ==> result != nil && fresh(asptr(result, *RefRecord))
@@ -102,7 +102,7 @@ package reftable
 //@   modifies nothing
 
 //@ func newBlockReader
-//@   props C18
+//@   props C18 C19
 //@   requires hashSize == 20 || hashSize == 32
 //@   requires headerOff <= 28 && len(block) < 4294967296
 //@   nopanic
@@ -117,49 +117,50 @@ package reftable
 //@   ensures result1 != nil ==> result0 == nil
 
 //@ func (*blockReader).getType
-//@   props C18
+//@   props C18 C19
 //@   requires wfBR(br)
 //@   pure
 //@   nopanic
 //@   ensures result == br.block[br.headerOff]
 
 //@ func (*blockReader).restartOffset
-//@   props C18
+//@   props C18 C19
 //@   requires wfBR(br) && 0 <= i && i < br.restartCount
 //@   pure
 //@   nopanic
 //@   ensures result < 16777216
 
 //@ func (*blockReader).start
-//@   props C18
+//@   props C18 C19
 //@   requires wfBR(br) && bi != nil
 //@   nopanic
 //@   modifies bi.ALLFIELDS
 //@   ensures bi.br == br && bi.nextOffset == br.headerOff + 4 && bi.lastKey == ""
 
 //@ func (*blockIter).Next
-//@   props C18
+//@   props C18 C19
 //@   requires wfBI(bi) && iref(r) != 0
 //@   requires istype(r, *RefRecord) || istype(r, *LogRecord) || istype(r, *objRecord) || istype(r, *indexRecord)
 //@   nopanic
 //@   modifies bi.lastKey, bi.nextOffset, r
+//@   sets lastDelta = asptr(r, *RefRecord).UpdateIndex if result0 && istype(r, *RefRecord)
 //@   ensures result0 ==> result1 == nil && bi.nextOffset > old(bi.nextOffset) && old(bi.nextOffset) < len(bi.br.block)
 //@   ensures !result0 ==> bi.nextOffset == old(bi.nextOffset)
 
 //@ func (*blockReader).seek
-//@   props C18
+//@   props C18 C19
 //@   requires wfBR(br) && typeOK(br)
 //@   nopanic
-//@   modifies nothing
+//@   modifies lastDelta
 //@   ensures result1 == nil ==> result0 != nil && fresh(result0) && result0.br == br
 //@   loop 1 invariant it.br == br && wfBR(br) && allocated(br) && fresh(it)
 //@   loop 1 decreases len(br.block) + 1 - it.nextOffset
 
 //@ func (*blockIter).seek
-//@   props C18
+//@   props C18 C19
 //@   requires wfBI(bi) && typeOK(bi.br)
 //@   nopanic
-//@   modifies bi.ALLFIELDS
+//@   modifies bi.ALLFIELDS, lastDelta
 //@   ensures result == nil ==> bi.br == old(bi.br)
 
 // ---------------------------------------------------------------------------------------------
@@ -167,6 +168,10 @@ package reftable
 // bufdata[b][k] = k-th unread byte.
 // ---------------------------------------------------------------------------------------------
 
+// lastDelta: the update-index delta stored in the ref record most recently decoded from a block (ghost, set at the
+// return of blockIter.Next); lastSought: the name most recently passed to Table.SeekRef.
+//@ ghost lastDelta uint64
+//@ ghost lastSought string
 //@ ghost buflen map[ref]int
 //@ ghost bufdata map[ref]map[int]int
 
@@ -238,19 +243,19 @@ package reftable
 //@   ensures result < 9223372036854775808
 
 //@ func (*ByteBlockSource).ReadBlock
-//@   props C18
+//@   props C18 C19
 //@   nopanic
 //@   modifies nothing
 //@   ensures result1 == nil ==> len(result0) <= sz || sz < 0
 
 //@ func (*ByteBlockSource).Size
-//@   props C18
+//@   props C18 C19
 //@   nopanic
 //@   pure
 //@   ensures result < 9223372036854775808
 
 //@ func (*Reader).getBlock
-//@   props C18
+//@   props C18 C19
 //@   requires wfReader(r)
 //@   nopanic
 //@   modifies nothing
@@ -258,7 +263,7 @@ package reftable
 //@   ensures result1 == nil ==> forall k int :: 0 <= k && k < len(result0) ==> result0[k] == srcdata[iref(r.src)][off + k]
 
 //@ func extractBlockSize
-//@   props C18
+//@   props C18 C19
 //@   requires version == 1 || version == 2
 //@   nopanic
 //@   pure
@@ -267,7 +272,7 @@ package reftable
 //@   ensures err == nil && off != 0 ==> len(block) >= 4 && typ == block[0]
 
 //@ func (*Reader).newBlockReader
-//@   props C18
+//@   props C18 C19
 //@   requires wfReader(r)
 //@   nopanic
 //@   modifies buflen, bufdata
@@ -276,46 +281,47 @@ package reftable
 //@   ensures err != nil ==> br == nil
 
 //@ func (*tableIter).nextBlock
-//@   props C18
+//@   props C18 C19
 //@   requires wfTI(i)
 //@   nopanic
-//@   modifies buflen, bufdata, i.blockOff, i.bi.ALLFIELDS, i.finished
+//@   modifies buflen, bufdata, lastDelta, lastSought, i.blockOff, i.bi.ALLFIELDS, i.finished
 //@   ensures result1 == nil ==> wfTI(i)
 
 //@ func (*tableIter).nextInBlock
-//@   props C18
+//@   props C18 C19 C11
 //@   requires wfTI(i) && recMatches(rec, i.typ)
 //@   nopanic
-//@   modifies i.bi.lastKey, i.bi.nextOffset, rec
+//@   modifies i.bi.lastKey, i.bi.nextOffset, rec, lastDelta
 //@   ensures wfTI(i)
+//@   ensures[abs-index] {C11,C01} result0 && istype(rec, *RefRecord) ==> asptr(rec, *RefRecord).UpdateIndex == wrap64(lastDelta + i.r.header.MinUpdateIndex)
 
 //@ func (*tableIter).Next
-//@   props C18
+//@   props C18 C19
 //@   requires wfTI(i) && recMatches(rec, i.typ)
 //@   nopanic
-//@   modifies buflen, bufdata, i.blockOff, i.bi.ALLFIELDS, i.finished, rec
+//@   modifies buflen, bufdata, lastDelta, lastSought, i.blockOff, i.bi.ALLFIELDS, i.finished, rec
 //@   ensures result1 == nil ==> wfTI(i)
 //@   loop 1 invariant wfTI(i) && recMatches(rec, i.typ)
 
 //@ func (*Reader).tabIterAt
-//@   props C18
+//@   props C18 C19
 //@   requires wfReader(r)
 //@   nopanic
-//@   modifies buflen, bufdata
+//@   modifies buflen, bufdata, lastDelta, lastSought
 //@   ensures result1 == nil && result0 != nil ==> fresh(result0) && wfTI(result0) && (wantTyp == 0 || result0.typ == wantTyp)
 
 //@ func (*Reader).start
-//@   props C18
+//@   props C18 C19
 //@   requires wfReader(r)
 //@   nopanic
-//@   modifies buflen, bufdata
+//@   modifies buflen, bufdata, lastDelta, lastSought
 //@   ensures result1 == nil && result0 != nil ==> fresh(result0) && wfTI(result0) && ((index && result0.typ == 'i') || (!index && (typ == 0 || result0.typ == typ)))
 
 //@ func (*Reader).seekLinear
-//@   props C18
+//@   props C18 C19
 //@   requires wfReader(r) && wfTI(tabIter) && recMatches(want, tabIter.typ)
 //@   nopanic
-//@   modifies buflen, bufdata, tabIter.ALLFIELDS
+//@   modifies buflen, bufdata, lastDelta, lastSought, tabIter.ALLFIELDS
 //@   ensures result1 == nil ==> wfTI(tabIter) && tabIter.typ == old(tabIter.typ)
 //@   ensures result0 ==> result1 == nil
 //@   loop 1 invariant wfTI(tabIter) && tabIter.typ == old(tabIter.typ) && recMatches(rec, tabIter.typ) && fresh(iref(rec))
@@ -324,65 +330,68 @@ package reftable
 //@ spec typOf(rec record) byte = istype(rec, *RefRecord) ? 'r' : (istype(rec, *LogRecord) ? 'g' : (istype(rec, *objRecord) ? 'o' : 'i'))
 
 //@ func (*Reader).seek
-//@   props C18
+//@   props C18 C19
 //@   requires wfReader(r) && recAny(rec)
 //@   nopanic
-//@   modifies buflen, bufdata
+//@   modifies buflen, bufdata, lastDelta, lastSought
 //@   ensures result1 == nil && result0 != nil ==> fresh(result0)
 //@   ensures result1 == nil && result0 != nil ==> wfTI(result0)
 //@   ensures result1 == nil && result0 != nil ==> result0.typ == typOf(rec)
 
 //@ func (*Reader).seekIndexed
-//@   props C18
+//@   props C18 C19
 //@   requires wfReader(r) && recAny(want)
 //@   nopanic
-//@   modifies buflen, bufdata
+//@   modifies buflen, bufdata, lastDelta, lastSought
 //@   ensures result1 == nil && result0 != nil ==> fresh(result0) && wfTI(result0) && result0.typ == typOf(want)
 //@   loop 1 invariant wfTI(idxIter) && idxIter.typ == 'i' && fresh(idxIter)
 
 //@ func (*Reader).seekRecord
-//@   props C18
+//@   props C18 C19
 //@   requires wfReader(r) && recAny(rec)
 //@   nopanic
-//@   modifies buflen, bufdata
+//@   modifies buflen, bufdata, lastDelta, lastSought
 //@   ensures result1 == nil ==> result0 != nil
 
 //@ func (*Reader).SeekRef
-//@   props C18
+//@   props C18 C19
 //@   requires wfReader(r)
 //@   nopanic
-//@   modifies buflen, bufdata
+//@   modifies buflen, bufdata, lastDelta, lastSought
 
 //@ func (*Reader).SeekLog
-//@   props C18
+//@   props C18 C19
 //@   requires wfReader(r)
 //@   nopanic
-//@   modifies buflen, bufdata
+//@   modifies buflen, bufdata, lastDelta, lastSought
 
 //@ func (*Reader).RefsFor
-//@   props C18
+//@   props C18 C19 C11
 //@   requires wfReader(r) && r.objectIDLen >= 0
 //@   nopanic
-//@   modifies buflen, bufdata
+//@   ensures[never-nil] result1 == nil ==> result0 != nil && iref(result0.impl) != 0
+//@   modifies buflen, bufdata, lastDelta, lastSought
 
 //@ func (*Reader).refsForIndexed
-//@   props C18
+//@   props C18 C19 C11
 //@   requires wfReader(r) && r.objectIDLen >= 0
 //@   nopanic
-//@   modifies buflen, bufdata
+//@   modifies buflen, bufdata, lastDelta, lastSought
 
 //@ func (*indexedTableRefIter).nextBlock
-//@   props C18
+//@   props C18 C19 C11
 //@   requires i != nil && wfReader(i.r)
 //@   nopanic
-//@   modifies buflen, bufdata, i.offsets, i.cur.ALLFIELDS, i.finished
+//@   modifies buflen, bufdata, lastDelta, lastSought, i.offsets, i.cur.ALLFIELDS, i.finished
 //@   ensures result == nil && (old(len(i.offsets)) > 0 || old(wfBI(i.cur))) ==> wfBI(i.cur)
 
 //@ func (*indexedTableRefIter).Next
-//@   props C18
+//@   props C18 C19 C11
 //@   requires i != nil && wfReader(i.r) && wfBI(i.cur) && istype(rec, *RefRecord) && iref(rec) != 0
 //@   nopanic
-//@   modifies buflen, bufdata, i.offsets, i.cur.ALLFIELDS, i.finished, rec
+//@   modifies buflen, bufdata, lastDelta, lastSought, i.offsets, i.cur.ALLFIELDS, i.finished, rec
+//@   ensures[same-update-index-as-seek] {C11} result0 ==> asptr(rec, *RefRecord).UpdateIndex == wrap64(lastDelta + i.r.header.MinUpdateIndex)
+//@   ensures[points-at-oid] {C11} result0 ==> bytesEq(asptr(rec, *RefRecord).Value, i.oid) || bytesEq(asptr(rec, *RefRecord).TargetValue, i.oid)
 //@   loop 1 invariant i != nil && wfReader(i.r) && wfBI(i.cur) && ref != nil && allocated(ref)
 
 // ---------------------------------------------------------------------------------------------
@@ -512,17 +521,17 @@ package reftable
 //@ spec lessSpec(ak string, ai int, bk string, bi int) bool = ak < bk || (ak == bk && ai > bi)
 
 //@ func (*RefRecord).key
-//@   props C03
+//@   props C03 C19
 //@   pure
 //@   ensures result == r.RefName
 
 //@ func (*indexRecord).key
-//@   props C03
+//@   props C03 C19
 //@   pure
 //@   ensures result == r.LastKey
 
 //@ func (*objRecord).key
-//@   props C03
+//@   props C03 C19
 //@   pure
 //@   ensures result == str(r.HashPrefix)
 
@@ -534,19 +543,19 @@ package reftable
 
 // From the statement: key ascending, and among equal keys the newer table (greater index) first.
 //@ func pqLess
-//@   props C03
+//@   props C03 C19
 //@   requires recAny(a.rec) && recAny(b.rec)
 //@   pure
 //@   nopanic
 //@   ensures result == lessSpec(keyOf(a.rec), a.index, keyOf(b.rec), b.index)
 
 //@ func (*mergedIterPQueue).isEmpty
-//@   props C03
+//@   props C03 C19
 //@   pure
 //@   ensures result == (len(pq.heap) == 0)
 
 //@ func (*mergedIterPQueue).top
-//@   props C03
+//@   props C03 C19
 //@   requires len(pq.heap) > 0
 //@   pure
 //@   nopanic
@@ -558,7 +567,7 @@ package reftable
 //@ spec heapOK(pq *mergedIterPQueue) bool = pq != nil && recsOK(pq) && ordered(pq)
 
 //@ func (*mergedIterPQueue).add
-//@   props C03
+//@   props C03 C19
 //@   requires heapOK(pq) && recAny(e.rec)
 //@   nopanic
 //@   modifies pq.heap, pq.heap[:cap(pq.heap)]
@@ -574,7 +583,7 @@ package reftable
 //@   loop 1 decreases i
 
 //@ func (*mergedIterPQueue).remove
-//@   props C03
+//@   props C03 C19
 //@   requires heapOK(pq) && len(pq.heap) > 0
 //@   nopanic
 //@   modifies pq.heap, pq.heap[:]
@@ -596,18 +605,19 @@ package reftable
 //@   decreases i
 //@   ensures !entryLess(pq, i, 0)
 
-// A sub-iterator's Next may write its own state, the record it is given and fresh memory. Assumption (ownership, not
-// checked): it does not write the priority queue of the merged iterator that owns it.
+// A sub-iterator's Next may write its own state, the record it is given and fresh memory. Assumptions (ownership, not
+// checked): it does not write the priority queue of the merged iterator that owns it, and an iterator obtained from
+// SeekRef/SeekLog performs no further SeekRef (lastSought is left alone).
 //@ iface iterator.Next
 //@   params rec
-//@   modifies buflen, bufdata, rec, anyof(*tableIter), anyof(*indexedTableRefIter), anyof(*filteringRefIterator), anyof(*blockIter)
+//@   modifies buflen, bufdata, lastDelta, rec, anyof(*tableIter), anyof(*indexedTableRefIter), anyof(*blockIter)
 
 //@ spec wfMI(m *mergedIter) bool = m != nil && heapOK(m.pq) && (m.typ == 'r' || m.typ == 'g' || m.typ == 'o' || m.typ == 'i') && (forall k int :: 0 <= k && k < len(m.pq.heap) ==> 0 <= m.pq.heap[k].index && m.pq.heap[k].index < len(m.stack))
 
 //@ func (*mergedIter).advanceSubIter
-//@   props C03
+//@   props C03 C19
 //@   requires wfMI(m) && 0 <= index && index < len(m.stack)
-//@   modifies buflen, bufdata, m.pq.heap, m.pq.heap[:cap(m.pq.heap)], m.stack[index], anyof(*tableIter), anyof(*indexedTableRefIter), anyof(*filteringRefIterator), anyof(*blockIter)
+//@   modifies buflen, bufdata, lastDelta, lastSought, m.pq.heap, m.pq.heap[:cap(m.pq.heap)], m.stack[index], anyof(*tableIter), anyof(*indexedTableRefIter), anyof(*blockIter)
 //@   ensures len(m.stack) == old(len(m.stack)) && m != nil && (m.typ == 'r' || m.typ == 'g' || m.typ == 'o' || m.typ == 'i')
 //@   ensures[d1] recsOK(m.pq)
 //@   ensures[d2] ordered(m.pq)
@@ -619,7 +629,7 @@ package reftable
 // table); afterwards every entry left in the queue has a strictly greater key, so keys come out strictly increasing,
 // each once, and older duplicates are consumed.
 //@ func (*mergedIter).nextEntry
-//@   props C03
+//@   props C03 C19
 //@   use lemmaRootMin
 //@   requires wfMI(m) && recAny(rec)
 //@   requires forall k int :: 0 <= k && k < len(m.pq.heap) ==> iref(m.pq.heap[k].rec) != iref(rec)
@@ -648,7 +658,7 @@ package reftable
 // From the statement: the stack's view (suppressDeletions) never yields a deletion record; the raw view yields what
 // nextEntry yields. Keys keep coming out strictly increasing.
 //@ func (*mergedIter).Next
-//@   props C03
+//@   props C03 C19
 //@   requires wfMI(m) && recAny(rec)
 //@   requires forall k int :: 0 <= k && k < len(m.pq.heap) ==> iref(m.pq.heap[k].rec) != iref(rec)
 //@   ensures[wf] wfMI(m)
@@ -659,9 +669,9 @@ package reftable
 //@   loop 1 invariant forall k int :: 0 <= k && k < len(m.pq.heap) ==> iref(m.pq.heap[k].rec) != iref(rec)
 
 //@ func (*mergedIter).init
-//@   props C03
+//@   props C03 C19
 //@   requires it != nil && len(it.pq.heap) == 0 && (it.typ == 'r' || it.typ == 'g' || it.typ == 'o' || it.typ == 'i')
-//@   modifies buflen, bufdata, it.pq.heap, it.pq.heap[:cap(it.pq.heap)], it.stack[:], anyof(*tableIter), anyof(*indexedTableRefIter), anyof(*filteringRefIterator), anyof(*blockIter)
+//@   modifies buflen, bufdata, lastDelta, lastSought, it.pq.heap, it.pq.heap[:cap(it.pq.heap)], it.stack[:], anyof(*tableIter), anyof(*indexedTableRefIter), anyof(*blockIter)
 //@   ensures result == nil ==> wfMI(it)
 //@   ensures it.typ == old(it.typ) && it.suppressDeletions == old(it.suppressDeletions) && len(it.stack) == old(len(it.stack))
 //@   loop 1 invariant[a] it != nil && it.typ == old(it.typ) && it.suppressDeletions == old(it.suppressDeletions) && it.stack == old(it.stack) && -1 <= rangeindex && rangeindex < len(it.stack)
@@ -671,7 +681,7 @@ package reftable
 
 //@ iface Table.seekRecord
 //@   params rec
-//@   modifies buflen, bufdata, anyof(*tableIter), anyof(*indexedTableRefIter), anyof(*filteringRefIterator), anyof(*blockIter)
+//@   modifies buflen, bufdata, lastDelta, lastSought, anyof(*tableIter), anyof(*indexedTableRefIter), anyof(*blockIter)
 //@   ensures result1 == nil ==> result0 != nil
 
 //@ iface Table.Name
@@ -680,9 +690,9 @@ package reftable
 // From the statement: the stack's view hides deletions, the raw view exposes them - the merged iterator carries the
 // view's flag - and it merges one sub-iterator per table of the stack, for the record type asked for.
 //@ func (*Merged).seekRecord
-//@   props C03
+//@   props C03 C19
 //@   requires m != nil && recAny(rec)
-//@   modifies buflen, bufdata, anyof(*tableIter), anyof(*indexedTableRefIter), anyof(*filteringRefIterator), anyof(*blockIter)
+//@   modifies buflen, bufdata, lastDelta, lastSought, anyof(*tableIter), anyof(*indexedTableRefIter), anyof(*blockIter)
 //@   ensures[is-merged-iter] result1 == nil ==> istype(result0, *mergedIter) && fresh(iref(result0)) && iref(result0) != 0
 //@   ensures[view-flag] result1 == nil ==> asptr(result0, *mergedIter).suppressDeletions == m.suppressDeletions
 //@   ensures[typ] result1 == nil ==> asptr(result0, *mergedIter).typ == typOf(rec)
@@ -691,15 +701,15 @@ package reftable
 //@   loop 1 invariant -1 <= rangeindex && rangeindex < len(m.stack) && len(m.stack) == old(len(m.stack)) && len(its) == rangeindex + 1 && len(names) == rangeindex + 1 && (its == nil || fresh(its)) && (names == nil || fresh(names))
 
 //@ func (*Merged).SeekRef
-//@   props C03
+//@   props C03 C19
 //@   requires m != nil
-//@   modifies buflen, bufdata, anyof(*tableIter), anyof(*indexedTableRefIter), anyof(*filteringRefIterator), anyof(*blockIter)
+//@   modifies buflen, bufdata, lastDelta, lastSought, anyof(*tableIter), anyof(*indexedTableRefIter), anyof(*blockIter)
 //@   ensures result1 == nil ==> result0 != nil && istype(result0.impl, *mergedIter) && asptr(result0.impl, *mergedIter).suppressDeletions == m.suppressDeletions && asptr(result0.impl, *mergedIter).typ == 'r' && wfMI(asptr(result0.impl, *mergedIter))
 
 //@ func (*Merged).SeekLog
-//@   props C03
+//@   props C03 C19
 //@   requires m != nil
-//@   modifies buflen, bufdata, anyof(*tableIter), anyof(*indexedTableRefIter), anyof(*filteringRefIterator), anyof(*blockIter)
+//@   modifies buflen, bufdata, lastDelta, lastSought, anyof(*tableIter), anyof(*indexedTableRefIter), anyof(*blockIter)
 //@   ensures result1 == nil ==> result0 != nil && istype(result0.impl, *mergedIter) && asptr(result0.impl, *mergedIter).suppressDeletions == m.suppressDeletions && asptr(result0.impl, *mergedIter).typ == 'g' && wfMI(asptr(result0.impl, *mergedIter))
 
 // A table's update-index range and hash id, as functions of the table value (tables are immutable once opened).
@@ -952,7 +962,7 @@ package reftable
 // coarse: opens and scans the new table (read-only on the directory)
 //@ func (*Stack).checkAddition
 //@   trusted
-//@   modifies buflen, bufdata, listNames, listLen
+//@   modifies buflen, bufdata, lastDelta, lastSought, listNames, listLen
 //@   ensures listStable()
 
 // C04/C05/C16: a table is added to the transaction only after it has been written, closed, checked and renamed into
@@ -1010,14 +1020,14 @@ package reftable
 //@ func (*Stack).writeCompact
 //@   props C07
 //@   requires wfStack(st) && wr != nil && 0 <= first && first <= last && last < len(st.stack)
-//@   modifies buflen, bufdata, st.Stats.EntriesWritten, anyof(*Writer), anyof(*blockWriter), anyof(*paddedWriter), anyof(*tableIter), anyof(*indexedTableRefIter), anyof(*filteringRefIterator), anyof(*blockIter)
+//@   modifies buflen, bufdata, lastDelta, lastSought, st.Stats.EntriesWritten, anyof(*Writer), anyof(*blockWriter), anyof(*paddedWriter), anyof(*tableIter), anyof(*indexedTableRefIter), anyof(*blockIter)
 //@   loop 1 invariant first <= i && (subtabs == nil || fresh(subtabs))
 
 // C16: on success the temp file is handed to the caller; on failure nothing temporary is left.
 //@ func (*Stack).compactLocked
 //@   props C16 C05
 //@   requires wfStack(st) && 0 <= first && first <= last && last < len(st.stack)
-//@   modifies held, ownsTmp, fileOf, listNames, listLen, buflen, bufdata, st.Stats.EntriesWritten, anyof(*Writer), anyof(*blockWriter), anyof(*paddedWriter), anyof(*tableIter), anyof(*indexedTableRefIter), anyof(*filteringRefIterator), anyof(*blockIter)
+//@   modifies held, ownsTmp, fileOf, listNames, listLen, buflen, bufdata, st.Stats.EntriesWritten, anyof(*Writer), anyof(*blockWriter), anyof(*paddedWriter), anyof(*tableIter), anyof(*indexedTableRefIter), anyof(*blockIter)
 //@   ensures listStable() && wfStack(st) && heldSame()
 //@   ensures[temp-handed-over] result1 == nil ==> ownsTmp[result0] && !isLock(result0) && result0 != theListFile && (forall p string :: p != result0 ==> (ownsTmp[p] ==> old(ownsTmp[p])))
 //@   ensures[no-temp-on-failure] result1 != nil ==> tmpSubset() && result0 == ""
@@ -1054,7 +1064,7 @@ package reftable
 //@   props C04 C05 C08 C09 C16 C17
 //@   requires wfStack(st) && !held[listLock()]
 //@   requires (first < last || expiration != nil) ==> 0 <= first && first <= last && last < len(st.stack)
-//@   modifies held, ownsTmp, fileOf, listNames, listLen, lockFails, wNames, wLen, appends, commits, buflen, bufdata, st.stack, st.merged, st.Stats.Attempts, st.Stats.EntriesWritten, anyof(*Writer), anyof(*blockWriter), anyof(*paddedWriter), anyof(*tableIter), anyof(*indexedTableRefIter), anyof(*filteringRefIterator), anyof(*blockIter)
+//@   modifies held, ownsTmp, fileOf, listNames, listLen, lockFails, wNames, wLen, appends, commits, buflen, bufdata, st.stack, st.merged, st.Stats.Attempts, st.Stats.EntriesWritten, anyof(*Writer), anyof(*blockWriter), anyof(*paddedWriter), anyof(*tableIter), anyof(*indexedTableRefIter), anyof(*blockIter)
 //@   callsite os.Rename 2 ghost a = first; b = last; k = (emptyTable ? 0 : 1)
 //@   ensures[locks-released] heldSubset()
 //@   ensures[no-temp] tmpSubset()
@@ -1100,7 +1110,7 @@ package reftable
 //@   props C04 C08 C16 C17
 //@   requires wfStack(st) && !held[listLock()]
 //@   requires (first < last || expiration != nil) ==> 0 <= first && first <= last && last < len(st.stack)
-//@   modifies held, ownsTmp, fileOf, listNames, listLen, lockFails, wNames, wLen, appends, commits, buflen, bufdata, st.stack, st.merged, st.Stats.Attempts, st.Stats.Failures, st.Stats.EntriesWritten, anyof(*Writer), anyof(*blockWriter), anyof(*paddedWriter), anyof(*tableIter), anyof(*indexedTableRefIter), anyof(*filteringRefIterator), anyof(*blockIter)
+//@   modifies held, ownsTmp, fileOf, listNames, listLen, lockFails, wNames, wLen, appends, commits, buflen, bufdata, st.stack, st.merged, st.Stats.Attempts, st.Stats.Failures, st.Stats.EntriesWritten, anyof(*Writer), anyof(*blockWriter), anyof(*paddedWriter), anyof(*tableIter), anyof(*indexedTableRefIter), anyof(*blockIter)
 //@   ensures heldSubset() && tmpSubset() && appends == old(appends) && wfStack(st)
 //@   ensures[progress] result0 && (first < last || expiration != nil) ==> commits == old(commits) + 1
 //@   ensures[failure-commits-nothing] !result0 ==> commits == old(commits)
@@ -1118,14 +1128,14 @@ package reftable
 //@ func (*Stack).AutoCompact
 //@   props C04 C08 C16 C17
 //@   requires wfStack(st) && !held[listLock()]
-//@   modifies held, ownsTmp, fileOf, listNames, listLen, lockFails, wNames, wLen, appends, commits, buflen, bufdata, st.stack, st.merged, st.Stats.Attempts, st.Stats.Failures, st.Stats.EntriesWritten, anyof(*Writer), anyof(*blockWriter), anyof(*paddedWriter), anyof(*tableIter), anyof(*indexedTableRefIter), anyof(*filteringRefIterator), anyof(*blockIter)
+//@   modifies held, ownsTmp, fileOf, listNames, listLen, lockFails, wNames, wLen, appends, commits, buflen, bufdata, st.stack, st.merged, st.Stats.Attempts, st.Stats.Failures, st.Stats.EntriesWritten, anyof(*Writer), anyof(*blockWriter), anyof(*paddedWriter), anyof(*tableIter), anyof(*indexedTableRefIter), anyof(*blockIter)
 //@   ensures heldSubset() && tmpSubset() && appends == old(appends) && wfStack(st)
 //@   ensures commits <= old(commits) + 1
 
 //@ func (*Stack).CompactAll
 //@   props C04 C08 C16
 //@   requires wfStack(st) && !held[listLock()] && len(st.stack) > 0
-//@   modifies held, ownsTmp, fileOf, listNames, listLen, lockFails, wNames, wLen, appends, commits, buflen, bufdata, st.stack, st.merged, st.Stats.Attempts, st.Stats.EntriesWritten, anyof(*Writer), anyof(*blockWriter), anyof(*paddedWriter), anyof(*tableIter), anyof(*indexedTableRefIter), anyof(*filteringRefIterator), anyof(*blockIter)
+//@   modifies held, ownsTmp, fileOf, listNames, listLen, lockFails, wNames, wLen, appends, commits, buflen, bufdata, st.stack, st.merged, st.Stats.Attempts, st.Stats.EntriesWritten, anyof(*Writer), anyof(*blockWriter), anyof(*paddedWriter), anyof(*tableIter), anyof(*indexedTableRefIter), anyof(*blockIter)
 //@   ensures heldSubset() && tmpSubset() && appends == old(appends) && wfStack(st)
 
 // Assumption about the caller-supplied transaction function (see (*Addition).Add#write).
@@ -1148,7 +1158,7 @@ package reftable
 //@ func (*Stack).Add
 //@   props C04 C08 C09 C16
 //@   requires wfStack(st) && !held[listLock()]
-//@   modifies held, ownsTmp, fileOf, listNames, listLen, lockFails, wNames, wLen, appends, commits, buflen, bufdata, st.stack, st.merged, st.Stats.Attempts, st.Stats.Failures, st.Stats.EntriesWritten, anyof(*Writer), anyof(*blockWriter), anyof(*paddedWriter), anyof(*tableIter), anyof(*indexedTableRefIter), anyof(*filteringRefIterator), anyof(*blockIter), anyof(*Addition)
+//@   modifies held, ownsTmp, fileOf, listNames, listLen, lockFails, wNames, wLen, appends, commits, buflen, bufdata, st.stack, st.merged, st.Stats.Attempts, st.Stats.Failures, st.Stats.EntriesWritten, anyof(*Writer), anyof(*blockWriter), anyof(*paddedWriter), anyof(*tableIter), anyof(*indexedTableRefIter), anyof(*blockIter), anyof(*Addition)
 //@   ensures[locks-released] heldSubset()
 //@   ensures[no-temp] tmpSubset()
 //@   ensures[at-most-one] appends <= old(appends) + 1 && appends >= old(appends)
@@ -1220,3 +1230,54 @@ package reftable
 //@   ensures[no-temp] tmpSubset()
 //@   loop 1 invariant -1 <= rangeindex && rangeindex < len(names)
 //@   loop 2 invariant -1 <= rangeindex && rangeindex < len(st.stack) && wfStack(st) && st.stack == old(st.stack) && heldSame() && tmpSubset() && (forall i int :: 0 <= i && i < len(st.stack) ==> st.stack[i].src != nil)
+
+// ---------------------------------------------------------------------------------------------
+// iterators at the API surface (C11, C18, C19)
+// ---------------------------------------------------------------------------------------------
+
+//@ func (*emptyIterator).Next
+//@   props C18 C19
+//@   pure
+//@   nopanic
+//@   ensures !result0 && result1 == nil
+
+//@ func (*Iterator).NextRef
+//@   props C19
+//@   requires it != nil && iref(it.impl) != 0 && ref != nil
+//@   modifies buflen, bufdata, lastDelta, ref.ALLFIELDS, anyof(*tableIter), anyof(*indexedTableRefIter), anyof(*blockIter)
+
+//@ func (*Iterator).NextLog
+//@   props C19
+//@   requires it != nil && iref(it.impl) != 0 && log != nil
+//@   modifies buflen, bufdata, lastDelta, log.ALLFIELDS, anyof(*tableIter), anyof(*indexedTableRefIter), anyof(*blockIter)
+
+//@ iface Table.SeekRef
+//@   params refName
+//@   modifies buflen, bufdata, lastDelta, anyof(*tableIter), anyof(*indexedTableRefIter), anyof(*blockIter)
+//@   sets lastSought = refName
+//@   ensures result1 == nil ==> result0 != nil && fresh(result0) && iref(result0.impl) != 0
+
+//@ iface Table.RefsFor
+//@   params oid
+//@   modifies buflen, bufdata, lastDelta, lastSought, anyof(*tableIter), anyof(*indexedTableRefIter), anyof(*blockIter)
+//@   ensures result1 == nil ==> result0 != nil && iref(result0.impl) != 0
+
+// C11: a record is returned only if its value or peeled value is the object id asked for; on a merged view
+// (doubleCheck) the record returned is the view's own record of the candidate's name - a candidate that has been
+// deleted or re-pointed in a newer table is skipped, never replaced by a neighbour and never ends the iteration.
+//@ func (*filteringRefIterator).Next
+//@   props C11 C19
+//@   requires fri != nil && iref(fri.it) != 0 && istype(rec, *RefRecord) && iref(rec) != 0 && (fri.doubleCheck ==> iref(fri.tab) != 0)
+//@   modifies buflen, bufdata, lastDelta, lastSought, rec, anyof(*tableIter), anyof(*indexedTableRefIter), anyof(*blockIter)
+//@   ensures[points-at-oid] result0 ==> bytesEq(asptr(rec, *RefRecord).Value, old(fri.oid)) || bytesEq(asptr(rec, *RefRecord).TargetValue, old(fri.oid))
+//@   ensures[double-check-name] result0 && old(fri.doubleCheck) ==> asptr(rec, *RefRecord).RefName == lastSought
+//@   loop 1 invariant fri != nil && allocated(fri) && allocated(iref(rec))
+
+// C11 on a stack: one candidate iterator per table, merged, every candidate re-checked against the merged view.
+//@ func (*Merged).RefsFor
+//@   props C11 C19
+//@   requires m != nil && (forall i int :: 0 <= i && i < len(m.stack) ==> m.stack[i] != nil)
+//@   modifies buflen, bufdata, lastDelta, lastSought, anyof(*tableIter), anyof(*indexedTableRefIter), anyof(*blockIter)
+//@   ensures[double-checked] result1 == nil ==> result0 != nil && istype(result0.impl, *filteringRefIterator) && asptr(result0.impl, *filteringRefIterator).doubleCheck && iref(asptr(result0.impl, *filteringRefIterator).tab) == m && istype(asptr(result0.impl, *filteringRefIterator).tab, *Merged) && asptr(result0.impl, *filteringRefIterator).oid == oid
+//@   ensures[merged-candidates] result1 == nil ==> istype(asptr(result0.impl, *filteringRefIterator).it, *mergedIter) && asptr(asptr(result0.impl, *filteringRefIterator).it, *mergedIter).typ == 'r' && len(asptr(asptr(result0.impl, *filteringRefIterator).it, *mergedIter).stack) == len(m.stack)
+//@   loop 1 invariant -1 <= rangeindex && rangeindex < len(m.stack) && mit != nil && fresh(mit) && mit.typ == 'r' && len(mit.pq.heap) == 0 && cap(mit.pq.heap) == 0 && len(mit.stack) == rangeindex + 1 && (mit.stack == nil || fresh(mit.stack)) && (mit.names == nil || fresh(mit.names)) && (ref(mit.stack) != ref(mit.names) || ref(mit.stack) == 0)
